@@ -75,7 +75,7 @@ def make_spec(combo, fmt, hook):
     if hook == 'count':
         spec['post'] = 'count'
     elif hook == 'raise':
-        spec['post'] = ['raise_if', NAMES[0], {'int': '13', 'float': '13.0'}.get(fields[0]['type'], "'never'") if isinstance(fields[0]['type'], str) else "'never'", 'ValueError']
+        spec['post'] = ['raise_if', NAMES[0], {'int': '13', 'float': '13.0'}.get(fields[0]['type'], "'never'") if isinstance(fields[0]['type'], str) else "'never'", 'HookBoom']
     return spec
 
 
@@ -85,6 +85,12 @@ def plan(tier, seed):
 
 def raw_for(f, which):
     k = next(k for k in KINDS if k[0] == f['kind'])
+    if which == 'trigger':
+        # the value on which the generated __post_init__ raises (first field only; int / float kinds)
+        return {'int': 13, 'float': 13.0}.get(f['type']) if isinstance(f['type'], str) and f is not None else None
+    if which == 'badinst':
+        # an instance of the field's own class whose content was never validated: the constructor must re-validate it
+        return grammar.dc_class('dc_defaults').make_unchecked(a='not an int') if f['kind'] == 'fac_nested' else None
     v = {'good': k[3], 'conv': k[4], 'bad': k[5]}[which]
     return values.fresh(v) if v is not None else None
 
@@ -122,7 +128,7 @@ def run_class(pane, res, idx, combo, fmt, hook, only=None):
         supplied = [f for i, f in enumerate(decl) if mask >> i & 1]
         names = [f['name'] for f in supplied]
         missing_req = [f['name'] for f in decl if not classes_gen.has_default(f) and f['name'] not in names]
-        for variant in ('good', 'conv', 'bad'):
+        for variant in ('good', 'conv', 'bad', 'badinst') + (('trigger',) if hook == 'raise' else ()):
             if variant != 'good' and not supplied:
                 continue
             raws = {}
@@ -140,9 +146,17 @@ def run_class(pane, res, idx, combo, fmt, hook, only=None):
             exp_err = None
             for f in supplied:
                 try:
-                    expected[f['name']] = pane.from_data(values.fresh(raws[f['name']]), grammar.build(f['type']))
+                    if variant == 'badinst' and f is supplied[0]:
+                        # the documented meaning of convert(): serialise by the value's own type, then parse as the field type
+                        Tf = grammar.build(f['type'])
+                        expected[f['name']] = pane.from_data(pane.into_data(raws[f['name']], Tf), Tf)
+                    else:
+                        expected[f['name']] = pane.from_data(values.fresh(raws[f['name']]), grammar.build(f['type']))
                 except ConvertError as e:
                     exp_err = (f['name'], e)
+                except Exception as e:  # noqa: serialising an unvalidated instance may fail with a foreign exception (not judged
+                    #                     beyond: the argument must not be accepted as it is)
+                    exp_err = (f['name'], None)
             trigger = hook == 'raise' and decl[0]['name'] in expected and values.typed_eq(expected[decl[0]['name']], 13 if decl[0]['type'] == 'int' else 13.0)
             # ---- paths
             is_prefix = [f['name'] for f in pos[:len([f for f in supplied if not f['kw_only']])]] == [f['name'] for f in supplied if not f['kw_only']]
@@ -153,8 +167,9 @@ def run_class(pane, res, idx, combo, fmt, hook, only=None):
                 kwa = {f['name']: values.fresh(raws[f['name']]) for f in supplied if f['kw_only']}
                 paths.append(('Cls(*prefix)', lambda pa=pa, kwa=kwa: cls(*pa, **kwa)))
             in_name = {f['name']: (f['aliases'][0] if f.get('aliases') else f['name']) for f in decl}
-            paths.append(('from_data(mapping)', lambda: pane.from_data({in_name[k]: values.fresh(v) for k, v in raws.items()}, cls)))
-            if tuple_ok and is_prefix and not any(f['kw_only'] for f in supplied):
+            if variant != 'badinst':
+                paths.append(('from_data(mapping)', lambda: pane.from_data({in_name[k]: values.fresh(v) for k, v in raws.items()}, cls)))
+            if variant != 'badinst' and tuple_ok and is_prefix and not any(f['kw_only'] for f in supplied):
                 paths.append(('from_data(sequence)', lambda: pane.from_data([values.fresh(raws[f['name']]) for f in pos if f['name'] in raws], cls)))
             results = []
             for pname, fn in paths:
@@ -184,6 +199,11 @@ def run_class(pane, res, idx, combo, fmt, hook, only=None):
                     elif data_path and out[0] != 'ConvertError' or (not data_path and out[0] not in ('TypeError',)):
                         core.add_violation(res, {'kind': 'missing_required_wrong_exception', 'exc': out[0], **sig},
                                            f"{desc}: raised {out[0]} for missing {missing_req}", cell, 3)
+                    continue
+                if exp_err is not None and exp_err[1] is None:
+                    if out[0] == 'ok':
+                        core.add_violation(res, {'kind': 'unvalidated_instance_stored_verbatim', **sig},
+                                           f"{desc}: an instance of the field's class with invalid content was accepted unconverted: {core.srepr(out[1], 80)}", cell, 3)
                     continue
                 if exp_err is not None:
                     if out[0] != 'ConvertError':
